@@ -122,6 +122,10 @@ pub struct ContentSpec {
     pub source: Source,
     /// reuse the bytes of an earlier content of the sequence (monotone index, see `pick`)
     pub dup_of: Option<u16>,
+    /// with `dup_of`: flip one byte of the copy (position selector over its length; u16::MAX = the
+    /// last byte): same length, same head, different content
+    #[serde(default)]
+    pub flip: Option<u16>,
 }
 
 const WORDS: [&str; 12] = [
@@ -240,14 +244,16 @@ pub fn content_strategy(class: LenClass, mem_only: bool) -> BoxedStrategy<Conten
         hint_strategy(),
         source,
         prop_oneof![6 => Just(None), 1 => any::<u16>().prop_map(Some)],
+        prop_oneof![3 => Just(None), 1 => Just(Some(u16::MAX)), 1 => any::<u16>().prop_map(Some)],
     )
-        .prop_map(|(len, ent, seed, hint, source, dup_of)| ContentSpec {
+        .prop_map(|(len, ent, seed, hint, source, dup_of, flip)| ContentSpec {
             len,
             ent,
             seed,
             hint,
             source,
             dup_of,
+            flip,
         })
         .boxed()
 }
@@ -262,6 +268,8 @@ pub fn content_seq_strategy(tier: Tier) -> BoxedStrategy<Vec<ContentSpec>> {
         8 => prop::collection::vec(content_strategy(LenClass::Small, true), 60..400),
         3 => prop::collection::vec(content_strategy(LenClass::Tiny, true), 4090..4102),
         1 => prop::collection::vec(content_strategy(LenClass::Tiny, true), 8188..8195),
+        3 => same_hint_run_strategy(),
+        1 => big_near_duplicate_strategy(),
         big => (
             prop::collection::vec(content_strategy(LenClass::Small, false), 0..6),
             content_strategy(LenClass::Huge, false),
@@ -276,6 +284,38 @@ pub fn content_seq_strategy(tier: Tier) -> BoxedStrategy<Vec<ContentSpec>> {
     .boxed()
 }
 
+/// A run of `n` tiny contents all carrying the same hint (fills a raw or a compressed cluster:
+/// 4095 blobs), followed by a few mixed ones.
+pub fn same_hint_run_strategy() -> BoxedStrategy<Vec<ContentSpec>> {
+    (
+        prop_oneof![Just(Hint::No), Just(Hint::Yes), Just(Hint::No)],
+        prop_oneof![3 => 4094usize..4100, 1 => 8189usize..8194],
+        any::<u32>(),
+        prop::collection::vec(content_strategy(LenClass::Small, true), 0..6),
+    )
+        .prop_map(|(hint, n, seed, tail)| {
+            let mut v: Vec<ContentSpec> = (0..n as u32)
+                .map(|i| ContentSpec { len: 3 + (seed.wrapping_add(i)) % 19, ent: Entropy::Text, seed: seed.wrapping_add(i), hint, source: Source::Mem, dup_of: None, flip: None })
+                .collect();
+            v.extend(tail);
+            v
+        })
+        .boxed()
+}
+
+/// A content of about CLUSTER_SIZE and a copy of it differing only in one late byte.
+pub fn big_near_duplicate_strategy() -> BoxedStrategy<Vec<ContentSpec>> {
+    (content_strategy(LenClass::Huge, true), prop_oneof![2 => Just(u16::MAX), 1 => 65000u16..65535, 1 => any::<u16>()], hint_strategy(), prop::collection::vec(content_strategy(LenClass::Small, true), 0..4))
+        .prop_map(|(mut big, flip, hint, tail)| {
+            big.dup_of = None;
+            let copy = ContentSpec { len: big.len, ent: big.ent, seed: big.seed, hint, source: Source::Mem, dup_of: Some(0), flip: Some(flip) };
+            let mut v = vec![big, copy];
+            v.extend(tail);
+            v
+        })
+        .boxed()
+}
+
 /// small sequences (used where the container is only a vehicle)
 pub fn small_content_seq_strategy() -> BoxedStrategy<Vec<ContentSpec>> {
     prop::collection::vec(content_strategy(LenClass::Small, false), 0..10).boxed()
@@ -286,7 +326,14 @@ pub fn resolve_contents(seq: &[ContentSpec]) -> Vec<Vec<u8>> {
     let mut out: Vec<Vec<u8>> = Vec::with_capacity(seq.len());
     for (i, c) in seq.iter().enumerate() {
         let bytes = match c.dup_of {
-            Some(k) if i > 0 => out[crate::engine::pick(k, i)].clone(),
+            Some(k) if i > 0 => {
+                let mut b = out[crate::engine::pick(k, i)].clone();
+                if let (Some(f), false) = (c.flip, b.is_empty()) {
+                    let pos = if f == u16::MAX { b.len() - 1 } else { crate::engine::pick(f, b.len()) };
+                    b[pos] ^= 0xFF;
+                }
+                b
+            }
             _ => content_bytes(c.seed, c.len as usize, c.ent),
         };
         out.push(bytes);
